@@ -300,6 +300,7 @@ template <typename Heap, size_t SrcAlloc>
 struct BumpLikeA : Adapter {
   std::vector<std::unique_ptr<Heap>> inst; // serial / thread-safe: one; storm on a non-thread-safe heap: one per thread
   bool shared;
+  unsigned apiMix = 2; // 0: allocate(size) only, 1: allocate(size,allocated) only, 2: both
   uint64_t twoArgCalls = 0, partial = 0, splitReqs = 0;
   std::mutex m;
   BumpLikeA(const char* name, bool threadSafeHeap) {
@@ -313,8 +314,9 @@ struct BumpLikeA : Adapter {
     liveBytesCap  = 48u << 20;
     accumCap      = SrcAlloc >= PAGE2M ? (40u << 20) : (4u << 20);
   }
-  void setup(CaseCtx& c, Rng&, bool storm, unsigned nthreads) override {
+  void setup(CaseCtx& c, Rng& rng, bool storm, unsigned nthreads) override {
     c.extent   = Heap::extent;
+    apiMix     = (unsigned)rng.pick({0, 1, 2, 2});
     unsigned n = (storm && !shared) ? nthreads : 1;
     for (unsigned i = 0; i < n; ++i)
       inst.emplace_back(new Heap());
@@ -324,7 +326,11 @@ struct BumpLikeA : Adapter {
     Req r;
     unsigned v = (unsigned)rng.below(10);
     r.aux      = v < 5 ? 0 : v < 8 ? 1 : 2;
-    size_t A   = SrcAlloc;
+    if (apiMix == 0)
+      r.aux = 0;
+    else if (apiMix == 1 && r.aux == 0)
+      r.aux = 1 + (v & 1);
+    size_t A = SrcAlloc;
     if (r.aux == 0) {
       // allocate(size) aborts by design when size cannot fit a chunk: stay <= A-8
       if (rng.below(6) == 0)
@@ -417,12 +423,15 @@ struct BumpLikeA : Adapter {
       h->clear();
   }
   void teardown(CaseCtx&) override { inst.clear(); }
-  void describe(J& j) override { j.kv("source_chunk", (uint64_t)SrcAlloc).kv("instances", (uint64_t)inst.size()); }
+  void describe(J& j) override {
+    j.kv("source_chunk", (uint64_t)SrcAlloc).kv("instances", (uint64_t)inst.size())
+        .kv("api", apiMix == 0 ? "allocate(size)" : apiMix == 1 ? "allocate(size,allocated)" : "both");
+  }
   void addObs(J& j) override {
     j.kv("alloc2_calls", twoArgCalls).kv("alloc2_partial", partial).kv("alloc2_split_requests", splitReqs);
   }
   std::string sigPart() override {
-    return "src" + std::to_string(SrcAlloc) + "|2arg" + bucket(twoArgCalls) + "|part" + bucket(partial);
+    return "src" + std::to_string(SrcAlloc) + "|api" + std::to_string(apiMix) + "|2arg" + bucket(twoArgCalls) + "|part" + bucket(partial);
   }
 };
 
@@ -540,6 +549,7 @@ struct PageHeapA : Adapter {
   std::mutex m;
   PageHeapA() {
     comp         = "PageHeap";
+    pageSized    = true;
     align        = 4096; // OS page; 2 MB address alignment is measured, not demanded (no huge pages here)
     threadSafe   = true;
     liveCap      = 12;
@@ -581,6 +591,7 @@ struct PagePoolA : Adapter {
   std::mutex m;
   PagePoolA() {
     comp         = "pagePool";
+    pageSized    = true;
     align        = 4096;
     threadSafe   = true;
     hasExtra     = true;
@@ -630,6 +641,75 @@ struct PagePoolA : Adapter {
   std::string sigPart() override { return std::string("pool|pre") + bucket(prealloc); }
 };
 
+// ------------------------------------------------------------------ user-composed fixed-size heaps (mix-in layers)
+// BlockHeap / FreeListHeap / SelfLockFreeListHeap / LockedHeap / ThreadPrivateHeap composed the way Mem.h's own
+// typedefs do. One element size per instance (FreeListHeap hands any freed block back regardless of size).
+template <typename Heap, unsigned Elem>
+struct ComposedA : Adapter {
+  std::unique_ptr<Heap> heap;
+  const char* what;
+  explicit ComposedA(const char* w) : what(w) {
+    comp         = "BlockHeap";
+    threadSafe   = true;
+    canClear     = true; // only at quiescent points
+    liveBytesCap = 8u << 20;
+    liveCap      = 3000;
+  }
+  void setup(CaseCtx& c, Rng&, bool, unsigned) override {
+    c.extent = EXT_WITHIN_SLICE;
+    heap.reset(new Heap());
+  }
+  Req next(Rng&, bool) override {
+    Req r;
+    r.size = Elem;
+    return r;
+  }
+  void alloc(CaseCtx& c, const Req& r, int tid, std::vector<Blk>& out) override {
+    void* p = heap->allocate(Elem);
+    out.push_back(onAlloc(c, p, Elem, align, 0, tid, what));
+  }
+  void dealloc(CaseCtx& c, Blk& b, int) override {
+    beforeFree(c, b);
+    heap->deallocate(b.p);
+  }
+  void clear(CaseCtx&, int) override { heap->clear(); }
+  void teardown(CaseCtx&) override { heap.reset(); }
+  void describe(J& j) override { j.kv("composition", what).kv("elem", Elem); }
+  std::string sigPart() override { return std::string(what) + "_" + std::to_string(Elem); }
+};
+// clear() of the layers above ThreadPrivateHeap / SelfLockFreeListHeap only empties the free lists into the
+// BlockHeap (whose deallocate is a no-op); BlockHeap::clear() then returns the pages.
+template <unsigned E>
+struct TPBlock : gr::ThreadPrivateHeap<gr::FreeListHeap<gr::BlockHeap<E, gr::SystemHeap>>> {};
+template <unsigned E>
+struct SLBlock : gr::SelfLockFreeListHeap<gr::LockedHeap<gr::BlockHeap<E, gr::SystemHeap>>> {
+  void clear() {
+    gr::SelfLockFreeListHeap<gr::LockedHeap<gr::BlockHeap<E, gr::SystemHeap>>>::clear();
+    gr::BlockHeap<E, gr::SystemHeap>::clear();
+  }
+};
+struct LockedBump : gr::LockedHeap<gr::FreeListHeap<gr::BumpHeap<gr::SystemHeap>>> {
+  void clear() {
+    gr::FreeListHeap<gr::BumpHeap<gr::SystemHeap>>::clear();
+    gr::BumpHeap<gr::SystemHeap>::clear();
+  }
+};
+template <typename Heap, unsigned E>
+CaseResult composedWith(Harness& H, long k, Rng& rng, bool storm, const char* what) {
+  ComposedA<Heap, E> a(what);
+  return storm ? runStorm(H, k, rng, a) : runSerial(H, k, rng, a);
+}
+CaseResult composedCase(Harness& H, long k, Rng& rng, bool storm) {
+  switch (rng.below(6)) {
+  case 0: return composedWith<TPBlock<24>, 24>(H, k, rng, storm, "ThreadPrivateHeap<FreeListHeap<BlockHeap>>");
+  case 1: return composedWith<TPBlock<520>, 520>(H, k, rng, storm, "ThreadPrivateHeap<FreeListHeap<BlockHeap>>");
+  case 2: return composedWith<TPBlock<7>, 7>(H, k, rng, storm, "ThreadPrivateHeap<FreeListHeap<BlockHeap>>");
+  case 3: return composedWith<SLBlock<40>, 40>(H, k, rng, storm, "SelfLockFreeListHeap<LockedHeap<BlockHeap>>");
+  case 4: return composedWith<SLBlock<4104>, 4104>(H, k, rng, storm, "SelfLockFreeListHeap<LockedHeap<BlockHeap>>");
+  default: return composedWith<LockedBump, 72>(H, k, rng, storm, "LockedHeap<FreeListHeap<BumpHeap>>");
+  }
+}
+
 // ------------------------------------------------------------------ dispatch
 template <typename A>
 CaseResult runWith(Harness& H, long k, Rng& rng, bool storm) {
@@ -673,5 +753,6 @@ Register r5("BumpHeap", bumpCase, 10, 4);
 Register r6("BumpWithMallocHeap", iterBaseCase, 8, 4);
 Register r7("PageHeap", runWith<PageHeapA>, 5, 4);
 Register r8("pagePool", runWith<PagePoolA>, 5, 4);
+Register r9("BlockHeap", composedCase, 5, 5);
 
 } // namespace
